@@ -71,6 +71,16 @@ func (r *rewriter) rewriteCall(c *ast.CallExpr) {
 			}
 		}
 	}
+	if r.rules["atomics"] {
+		// x.Add(v) on an atomic counter becomes verifrt.AtomicAdd(&x, v): the address of the counter is taken, then a
+		// scheduling point, then the add - so a concurrent reallocation of the container x lives in is observable
+		if sel, ok := c.Fun.(*ast.SelectorExpr); ok && sel.Sel.Name == "Add" && len(c.Args) == 1 {
+			c.Args = []ast.Expr{&ast.UnaryExpr{Op: token.AND, X: sel.X}, c.Args[0]}
+			c.Fun = rt("AtomicAdd")
+			r.used = true
+			return
+		}
+	}
 	if r.rules["net"] {
 		if sel, ok := c.Fun.(*ast.SelectorExpr); ok {
 			if id, ok := sel.X.(*ast.Ident); ok && id.Name == "net" {
